@@ -411,3 +411,24 @@ func constTripCount(h *ssa.BasicBlock) (int, bool) {
 	}
 	return 0, false
 }
+
+// funcOperand resolves a function-typed operand to the source function that
+// will run: a closure, a plain function value, or a method value (v.m), whose
+// synthetic bound-method wrapper is followed to the method itself.
+func funcOperand(v ssa.Value) *ssa.Function {
+	var fn *ssa.Function
+	switch t := v.(type) {
+	case *ssa.MakeClosure:
+		fn, _ = t.Fn.(*ssa.Function)
+	case *ssa.Function:
+		fn = t
+	}
+	if fn != nil && fn.Synthetic != "" {
+		for _, ci := range allCalls(fn, false) {
+			if g := staticCallee(ci); g != nil && inModule(g) {
+				return g
+			}
+		}
+	}
+	return fn
+}
